@@ -880,6 +880,14 @@ def run(ctx):
             txt += "\n".join("%s\n#   %s" % (line, what[:1500]) for what, line in items[:8])
             ctx.violation(tag, txt)
     ctx.notes["oracle_failures"] = len(state["orc"])
+    # the two tree-building result targets inside the model (built as its own part: props/C05_targets.py)
+    try:
+        import importlib
+        targets_part = importlib.import_module("props.C05_targets")
+    except ImportError:
+        targets_part = None
+    if targets_part is not None:
+        targets_part.run_part(ctx)
     return ctx.finish(LEVEL, explanation="theorems over the Gallina models of tree building / wrapper numbering / chunked output (tied by GenForms.v) + correspondence of the extracted models with the rebuilt library + differential run of every supply form")
 
 
